@@ -11,7 +11,7 @@ for d in seeded/S*; do
   P=$(python3 -c "import json;print(json.load(open('$d/meta.json'))['property'])")
   git -C "$root" checkout -q -- .
   if ! git -C "$root" apply "$PWD/$d/patch.diff" 2>/dev/null; then echo "$n $P PATCH-DOES-NOT-APPLY"; continue; fi
-  for s in 1 2; do
+  for s in ${SWEEP_SEEDS:-1 2}; do
     out=$(VERIF_SEED=$s bin/check run "$P" --tier quick 2>&1); rc=$?
     echo "$n $P seed=$s exit=$rc violations=$(echo "$out" | grep -c '^VIOLATION') unconfirmed=$(echo "$out" | grep -c '^NONDET') $(echo "$out" | grep -m1 '^candidate' | cut -c1-110)"
   done
